@@ -48,6 +48,8 @@ def run(chk: Check):
     def extra(chk, cfg):
         # reads through a cache smaller than the item read: oracle only (see store_util.oversized_read_scenarios)
         su.check_histories(chk, su.oversized_read_scenarios(), cfg, nontrivial, label='o', model=False)
+        # append sessions over a base file and an associated file that holds fewer trajectories: oracle only
+        su.append_shorter_associated_scenarios(chk, chk.rng, chk.n(6, 40))
     su.run_property(chk, 'C07', PROPS, gen, nontrivial,
                     scenarios=su.big_payload_scenarios(chk.rng, chk.n(3, 12)) + su.rejected_first_add_scenarios(),
                     extra=extra)
